@@ -60,6 +60,8 @@ def step_class(s, length, tile):
     a, g = s["a"], s["args"]
     if a == "loop":
         return loop_class(g)
+    if a in ("new", "range"):
+        return "create"
     c = []
     if length == 0:
         c.append("len0")
@@ -68,8 +70,6 @@ def step_class(s, length, tile):
         c.append("ti>1")
     elif ts > 1:
         c.append("ts>1")
-    if a in ("range",) or a.startswith("r."):
-        pass
     return "+".join(c) or "plain"
 
 
@@ -273,11 +273,17 @@ def run(ctx):
             gens = [("tiled_t", "mc/Functional_gen_tiled_t.cfg", None, None), ("values_t", "mc/Functional_gen_values_t.cfg", None, None),
                     ("pairs_t", "mc/Functional_gen_pairs_t.cfg", None, None), ("helpers", "mc/Functional_gen_helpers.cfg", None, None),
                     ("range_t", "mc/Functional_gen_range_t.cfg", None, None), ("loop_t", "mc/Functional_gen_loop_t.cfg", None, None),
-                    ("sim_array", "mc/Functional_sim_array.cfg", 4000, 7), ("sim_range", "mc/Functional_sim_range.cfg", 1500, 5),
-                    ("sim_loop", "mc/Functional_sim_loop.cfg", 150, 1)]
+                    ("sim_array", "mc/Functional_sim_array.cfg", 1500, 7), ("sim_range", "mc/Functional_sim_range.cfg", 600, 5),
+                    ("sim_loop", "mc/Functional_sim_loop.cfg", 100, 1)]
+        only = [x for x in os.environ.get("C23_ONLY", "").split(",") if x]
+        if only:      # development aid (mutant demonstrations): a subset of the generation configs, no design runs
+            gens = [g for g in gens if g[0] in only]
+            jobs = []
+            ctx.notes.append("C23_ONLY=%s: partial run" % ",".join(only))
         for name, cfg, sim, depth in gens:
+            # simulation: SimSpec prints each complete behaviour in a stuttering step (no CONSTRAINT, no deadlock check)
             jobs.append((name, cfg, dict(workers=1, count=False, timeout=3000, simulate=sim,
-                                         depth=(depth + 1 if depth else None))))
+                                         depth=(depth + 2 if depth else None), deadlock=(sim is None))))
         # at most `tlcpar` TLC processes at a time
         sem = threading.Semaphore(tlcpar)
 
@@ -296,10 +302,13 @@ def run(ctx):
         for name, _, _ in jobs:
             if name not in res:
                 raise Broken("TLC job %s did not finish" % name)
-        ctx.tlc_must_pass(res["design_array"], "Functional design (arrays)")
-        ctx.tlc_must_pass(res["design_range"], "Functional design (ranges)")
-        ctx.require_coverage(res["design_array"], ARRAY_ACTIONS)
-        ctx.require_coverage(res["design_range"], RANGE_ACTIONS)
+        if not only:
+            ctx.tlc_must_pass(res["design_array"], "Functional design (arrays)")
+            ctx.tlc_must_pass(res["design_range"], "Functional design (ranges)")
+            ctx.require_coverage(res["design_array"], ARRAY_ACTIONS)
+            ctx.require_coverage(res["design_range"], RANGE_ACTIONS)
+        else:
+            ctx.level = "exploration"
         # ---- 2. behaviours
         behaviours, per_cfg = [], {}
         for name, cfg, _, _ in gens:
